@@ -17,6 +17,116 @@ theorem newCalls_trans {s s1 s2 : Sys} {l1 l2 : List Call} (h1 : Ext s s1 l1) (h
 `getTaskForRef` (pod cache, or a live GET when the cache misses an unfinished ref or is stale) -/
 def tasks0 (s : Sys) (jo : JobObj) (rj : Job) : List Task := tasksForRefs s jo rj.status.tasks
 
+/-- the status recomputation leaves the task list alone -/
+theorem syncJobStatus_tasks (s : Sys) (key : String) (rj : Job) :
+    (syncJobStatusFromTaskRefs s key rj).2.status.tasks = rj.status.tasks := by
+  unfold syncJobStatusFromTaskRefs
+  cases hu : updateJobStatusFromTaskRefs s.clock s.d rj with
+  | none => rfl
+  | some newRj =>
+    have : newRj.status.tasks = rj.status.tasks := by
+      unfold updateJobStatusFromTaskRefs updateJobStatusFromTaskRefsWith at hu
+      cases ht : rj.template with
+      | none => simp [ht] at hu
+      | some t =>
+        simp only [ht, Option.some.injEq] at hu
+        subst hu
+        simp [statusBeforePhase]
+    simp only
+    split
+    · split
+      · split <;> exact this
+      · exact this
+    · exact this
+
+/-- the refs `updateTaskRefStatus` records: `GenerateTaskRefs` of the recorded refs and the tasks -/
+theorem updateTaskRefStatus_tasks (s : Sys) (key : String) (rj : Job) (tasks : List Task) :
+    (updateTaskRefStatus s key rj tasks).2.status.tasks = generateTaskRefs s.clock rj.status.tasks tasks := by
+  unfold updateTaskRefStatus
+  rw [syncJobStatus_tasks]
+  rfl
+
+/-- the creation of one task leaves the status of the working Job alone (it may add the admission error) -/
+theorem syncCreateTask_status (s : Sys) (jo : JobObj) (rj : Job) (tasks : List Task) (idx : PIndex) (retry : Int)
+    (rj1 : Job) (tasks1 : List Task) (h : (syncCreateTask s jo rj tasks idx retry).2 = some (rj1, tasks1)) :
+    rj1.status = rj.status := by
+  unfold syncCreateTask at h
+  generalize apiCreatePod s jo idx retry = r at h
+  obtain ⟨s1, cr⟩ := r
+  cases cr with
+  | ok p =>
+    simp only at h
+    cases hp : podTask p with
+    | none => simp [hp] at h
+    | some t => simp only [hp, Option.map_some, Option.some.injEq, Prod.mk.injEq] at h; rw [← h.1]
+  | err => simp at h
+  | «exists» =>
+    simp only at h
+    cases hf : findPod s1.podCache (taskName jo.name idx.hash retry) with
+    | none => simp [hf] at h
+    | some p =>
+      simp only [hf] at h
+      by_cases ho : p.ownerUid = some jo.uid
+      · simp only [ho, if_true] at h
+        cases hp : podTask p with
+        | none => simp [hp] at h
+        | some t => simp only [hp, Option.map_some, Option.some.injEq, Prod.mk.injEq] at h; rw [← h.1]
+      · simp only [ho, if_false, Option.some.injEq, Prod.mk.injEq] at h
+        rw [← h.1]
+
+theorem createLoop_status (jo : JobObj) : ∀ (reqs : List CreationRequest) (s : Sys) (rj : Job) (tasks : List Task)
+    (minE : Option Time) (rj' : Job) (tasks' : List Task) (minE' : Option Time),
+    (createLoop jo reqs s rj tasks minE).2 = some (rj', tasks', minE') → rj'.status = rj.status
+  | [], s, rj, tasks, minE, rj', tasks', minE', h => by
+    rw [createLoop.eq_def] at h
+    simp only [Option.some.injEq, Prod.mk.injEq] at h
+    rw [← h.1]
+  | r :: rest, s, rj, tasks, minE, rj', tasks', minE', h => by
+    rw [createLoop_cons] at h
+    split at h
+    · exact createLoop_status jo rest s rj tasks _ rj' tasks' minE' h
+    · generalize hc : syncCreateTask s jo rj tasks r.index r.retryIndex = c at h
+      obtain ⟨s1, o⟩ := c
+      cases o with
+      | none => simp at h
+      | some pr =>
+        obtain ⟨rj1, tasks1⟩ := pr
+        simp only at h
+        have h1 := syncCreateTask_status s jo rj tasks r.index r.retryIndex rj1 tasks1 (by rw [hc])
+        exact (createLoop_status jo rest s1 rj1 tasks1 _ rj' tasks' minE' h).trans h1
+
+/-- the refs of the Job the creation step hands on: the cached ones, or — when the step went through its
+creation loop — `GenerateTaskRefs` of the cached ones and the task list it hands on -/
+theorem syncCreateTasks_tasks (s : Sys) (jo : JobObj) (rj : Job) (tasks : List Task) (s1 : Sys) (rj1 : Job)
+    (tasks1 : List Task) (h : syncCreateTasks s jo rj tasks = (s1, some (rj1, tasks1))) :
+    rj1.status.tasks = rj.status.tasks ∨ rj1.status.tasks = generateTaskRefs s.clock rj.status.tasks tasks1 := by
+  rw [syncCreateTasks_eq] at h
+  split at h
+  · simp only [Prod.mk.injEq, Option.some.injEq] at h; rw [← h.2.1]; exact Or.inl rfl
+  · split at h
+    · simp only [Prod.mk.injEq, Option.some.injEq] at h; rw [← h.2.1]; exact Or.inl rfl
+    · cases hreqs : computeMissingIndexesForCreation s.d rj (rj.indexes s.d) with
+      | none => simp [hreqs] at h
+      | some reqs =>
+        simp only [hreqs] at h
+        obtain ⟨lc, ec, _⟩ := createLoop_ext jo reqs s rj tasks none
+        have hst := createLoop_status jo reqs s rj tasks none
+        generalize createLoop jo reqs s rj tasks none = cl at h ec hst
+        obtain ⟨sc, o⟩ := cl
+        cases o with
+        | none => simp at h
+        | some tr =>
+          obtain ⟨rjL, tasksL, minE⟩ := tr
+          simp only [Prod.mk.injEq, Option.some.injEq] at h
+          obtain ⟨_, hrj, htk⟩ := h
+          right
+          rw [← hrj, ← htk, updateTaskRefStatus_tasks, hst rjL tasksL minE rfl]
+          have : (armMin sc (jobKey jo) minE).clock = s.clock := by
+            have := ec.clock
+            simp only at this
+            cases minE <;> exact this
+          rw [this]
+
 /-- where a call issued by `syncJobTasks s jo rj` comes from.  `tasks1` is the task list after the
 creation step; the state `s'` and Job `rj'` a later handler runs on keep the clock, configuration
 and caches of `s` (`Ext`), the spec of `rj` (`SpecLe`: only the admission-error annotation may
@@ -25,7 +135,8 @@ inductive TaskCallOrigin (s : Sys) (jo : JobObj) (rj : Job) (c : Call) : Prop
   | create : c ∈ newCalls s (syncCreateTasks s jo rj (tasks0 s jo rj)).1 → TaskCallOrigin s jo rj c
   | pending (s1 : Sys) (rj1 : Job) (tasks1 : List Task) (s' : Sys) (rj' : Job) (l : List Call) :
       syncCreateTasks s jo rj (tasks0 s jo rj) = (s1, some (rj1, tasks1)) → Ext s s' l → SpecLe rj rj1 →
-      SameSpec rj1 rj' → c ∈ newCalls s' (handlePendingTasks s' jo rj' tasks1).1 → TaskCallOrigin s jo rj c
+      SameSpec rj1 rj' → rj'.status.tasks = generateTaskRefs s.clock rj1.status.tasks tasks1 →
+      c ∈ newCalls s' (handlePendingTasks s' jo rj' tasks1).1 → TaskCallOrigin s jo rj c
   | kill (s1 : Sys) (rj1 : Job) (tasks1 : List Task) (s' : Sys) (rj' : Job) (l : List Call) :
       syncCreateTasks s jo rj (tasks0 s jo rj) = (s1, some (rj1, tasks1)) → Ext s s' l → SpecLe rj rj1 →
       SameSpec rj1 rj' → c ∈ newCalls s' (handleKillJob s' jo rj' tasks1).1 → TaskCallOrigin s jo rj c
@@ -158,13 +269,15 @@ theorem syncJobTasks_origin (s : Sys) (jo : JobObj) (rj : Job) :
     simp only at ec hcres ⊢
     obtain ⟨hle, _⟩ := hcres rj1 tasks1 rfl
     obtain ⟨e2, hs2, _⟩ := updateTaskRefStatus_ext s1 (jobKey jo) rj1 tasks1
+    have ht2 := updateTaskRefStatus_tasks s1 (jobKey jo) rj1 tasks1
+    rw [ec.clock] at ht2
     generalize updateTaskRefStatus s1 (jobKey jo) rj1 tasks1 = u2 at *
     obtain ⟨s2, rj2⟩ := u2
-    simp only at e2 hs2 ⊢
+    simp only at e2 hs2 ht2 ⊢
     obtain ⟨lp, ep, _⟩ := handlePendingTasks_ext s2 jo rj2 tasks1
     have hsp := handlePending_sameSpec s2 jo rj2 tasks1
     have hpend : ∀ c ∈ lp, TaskCallOrigin s jo rj c := fun c hc =>
-      .pending s1 rj1 tasks1 s2 rj2 _ hcr (ec.trans e2) hle hs2 (by rw [ep.newCalls]; exact hc)
+      .pending s1 rj1 tasks1 s2 rj2 _ hcr (ec.trans e2) hle hs2 ht2 (by rw [ep.newCalls]; exact hc)
     generalize handlePendingTasks s2 jo rj2 tasks1 = r3 at *
     obtain ⟨s3, o3⟩ := r3
     have e03 := (ec.trans e2).trans ep
